@@ -878,3 +878,191 @@ Proof.
        (split; [reflexivity|]); (split; [reflexivity|]);
        try discriminate; auto.
 Qed.
+
+(* ---------- update_remote ---------- *)
+Lemma shl_window_bound : forall w x, 0 <= w <= 65535 -> 0 <= x <= 14 -> 0 <= shl w x < 2 ^ 30.
+Proof.
+  intros w x Hw Hx. unfold shl. change (2 ^ 30) with (2 ^ 16 * 2 ^ 14).
+  assert (0 < 2 ^ x <= 2 ^ 14).
+  { split; [apply Z.pow_pos_nonneg; lia|]. apply Z.pow_le_mono_r; lia. }
+  change (2 ^ 16) with 65536. nia.
+Qed.
+
+Lemma update_remote_spec : forall cx s r al s4 wu,
+  tcp_process_update_remote cx s r al = Ok (s4, wu) ->
+  tcp_weak_inv s -> seg_ok r ->
+  tcp_weak_inv s4 /\ s_state s4 = s_state s /\ s_timer s4 = s_timer s /\
+  s_local_seq_no s4 = s_local_seq_no s /\ s_remote_last_seq s4 = s_remote_last_seq s /\
+  s_keep_alive s4 = s_keep_alive s /\
+  rb_len (s_tx_buffer s4) = (if al >? 0 then rb_len (s_tx_buffer s) - al else rb_len (s_tx_buffer s)).
+Proof.
+  intros cx s r al s4 wu H W (Hwin & _ & _). unfold tcp_process_update_remote in H. sproj in H.
+  set (scale := match r_control r with
+                | CSyn => 0
+                | _ => match s_remote_win_scale s with Some x => x | None => 0 end
+                end) in *.
+  assert (Hscale : 0 <= scale <= 14).
+  { unfold scale. pose proof (wi_scale s W) as Hs.
+    destruct (r_control r); destruct (s_remote_win_scale s); lia. }
+  pose proof (shl_window_bound _ _ Hwin Hscale) as Hb.
+  destruct (al >? 0) eqn:Hal.
+  - destruct (negb (rb_len (s_tx_buffer s) >=? al)) eqn:Hge; [discriminate|].
+    obind_inv H. inversion H; subst s4 wu; clear H.
+    assert (Hal0 : 0 <= al) by lia.
+    destruct (rb_dequeue_allocated_spec _ _ _ (wi_tx s W) Hal0 E) as (_ & Wtx & _ & Ltx & _).
+    weak_destruct W. sproj.
+    split; [constructor; sproj; auto using cc_set_remote_window_ok|]. auto 10.
+  - inversion H; subst s4 wu; clear H. weak_destruct W. sproj.
+    split; [constructor; sproj; auto using cc_set_remote_window_ok|]. auto 10.
+Qed.
+
+(* ---------- duplicate-ACK phase ---------- *)
+Lemma flight_size_ok_irrelevant : True. Proof. exact I. Qed.
+
+Lemma dup_ack_spec : forall cx s r al wu s5 tg,
+  tcp_process_dup_ack cx s r al wu = Ok (s5, tg) ->
+  tcp_weak_inv s -> seg_ok r ->
+  tcp_weak_inv s5 /\ s_state s5 = s_state s /\ s_tx_buffer s5 = s_tx_buffer s /\
+  s_remote_win_len s5 = s_remote_win_len s /\ s_keep_alive s5 = s_keep_alive s /\
+  (s_timer s5 = s_timer s \/ s_timer s5 = TFastRetransmit) /\
+  match r_ack_number r with
+  | None => s_local_seq_no s5 = s_local_seq_no s /\ s_remote_last_seq s5 = s_remote_last_seq s
+  | Some a => s_local_seq_no s5 = a /\
+              s_remote_last_seq s5 = (if seq_lt (s_remote_last_seq s) a then a else s_remote_last_seq s)
+  end.
+Proof.
+  intros cx s r al wu s5 tg H W (_ & Hack & _). unfold tcp_process_dup_ack in H.
+  destruct (r_ack_number r) as [a|].
+  2:{ inversion H; subst s5. auto 10. }
+  obind_inv H. destruct a0 as (q, tq).
+  (* the socket after the counting / estimator step *)
+  assert (Hq : tcp_weak_inv q /\ s_state q = s_state s /\ s_tx_buffer q = s_tx_buffer s /\
+               s_remote_win_len q = s_remote_win_len s /\ s_keep_alive q = s_keep_alive s /\
+               (s_timer q = s_timer s \/ s_timer q = TFastRetransmit) /\
+               s_remote_last_seq q = s_remote_last_seq s /\ s_tuple q = s_tuple s).
+  { clear H. weak_destruct W.
+    match type of E with (if ?b then _ else _) = _ => destruct b end.
+    - obind_inv E. inversion E; subst q tq; clear E.
+      match goal with |- context [if ?b then upd_timer _ TFastRetransmit else _] => destruct b end;
+        sproj; (split; [constructor; sproj; auto using cc_on_dup_ack_ok; cbn; discriminate|]); auto 10.
+    - obind_inv E. obind_inv E. obind_inv E. inversion E; subst q tq; clear E.
+      destruct (s_local_rx_dup_acks s >? 0); sproj in E0; sproj in E2; sproj;
+        (split; [constructor; sproj; eauto using cc_on_ack_ok, rtte_on_ack_ok|]); auto 10. }
+  destruct Hq as (Wq & Q1 & Q2 & Q3 & Q4 & Q5 & Q6 & Q7). clear E.
+  sproj in H.
+  destruct (seq_lt (s_remote_last_seq q) a) eqn:Hlt; inversion H; subst s5 tg; clear H;
+    weak_destruct Wq; sproj; rewrite <- ?Q6, ?Hlt;
+    (split; [constructor; sproj; auto|]); auto 10.
+Qed.
+
+(* ---------- timer phases: only the timer changes ---------- *)
+Definition core_but_timer (s s' : socket) : Prop :=
+  s_state s' = s_state s /\ s_tuple s' = s_tuple s /\
+  s_tx_buffer s' = s_tx_buffer s /\ s_local_seq_no s' = s_local_seq_no s /\
+  s_remote_last_seq s' = s_remote_last_seq s /\ s_remote_win_len s' = s_remote_win_len s /\
+  s_remote_win_scale s' = s_remote_win_scale s /\
+  s_congestion_controller s' = s_congestion_controller s /\ s_rtte s' = s_rtte s /\
+  s_keep_alive s' = s_keep_alive s.
+
+Lemma weak_inv_timer : forall s s', tcp_weak_inv s -> core_but_timer s s' ->
+  (timer_is_close (s_timer s') = true -> timer_is_close (s_timer s) = true) ->
+  tcp_weak_inv s'.
+Proof.
+  intros s s' W (E1&E2&E3&E4&E5&E6&E7&E8&E9&E10) Hc. weak_destruct W.
+  constructor; rewrite ?E1, ?E2, ?E3, ?E4, ?E5, ?E6, ?E7, ?E8, ?E9; auto.
+Qed.
+
+Definition timers_fn (t : timer) (now : Z) (ka : option Z) (rto al : Z) (aall : bool) : timer :=
+  match t with
+  | TRetransmit _ | TFastRetransmit =>
+      if aall then timer_set_for_idle now ka
+      else if al >? 0 then timer_set_for_retransmit t now rto else t
+  | TIdle _ => timer_set_for_idle now ka
+  | _ => t
+  end.
+
+Lemma timers_spec : forall cx s al aall,
+  let s6 := fst (tcp_process_timers cx s al aall) in
+  core_but_timer s s6 /\
+  s_timer s6 = timers_fn (s_timer s) (cx_now cx) (s_keep_alive s)
+                         (rtte_retransmission_timeout (s_rtte s)) al aall.
+Proof.
+  intros. unfold s6, tcp_process_timers, timers_fn, core_but_timer.
+  destruct (s_timer s); try destruct aall; try destruct (al >? 0); cbn [fst]; sproj;
+    conj_split; reflexivity.
+Qed.
+
+Definition zwp_fn (t : timer) (now : Z) (ka : option Z) (rto al w len : Z) (flight : bool) : timer :=
+  let t1 := if (w =? 0) && negb (len =? 0) && (timer_is_idle t || (al >? 0))
+            then timer_set_for_zero_window_probe now rto else t in
+  if (negb (w =? 0) || (len =? 0)) && timer_is_zero_window_probe t1
+  then if flight then timer_set_for_retransmit (timer_set_for_idle now ka) now rto
+       else timer_set_for_idle now ka
+  else t1.
+
+Lemma zwp_spec : forall cx s al,
+  let s7 := fst (tcp_process_zwp cx s al) in
+  core_but_timer s s7 /\
+  s_timer s7 = zwp_fn (s_timer s) (cx_now cx) (s_keep_alive s)
+                      (rtte_retransmission_timeout (s_rtte s)) al (s_remote_win_len s)
+                      (rb_len (s_tx_buffer s))
+                      (negb (s_remote_last_seq s =? s_local_seq_no s)).
+Proof.
+  intros. unfold s7, tcp_process_zwp, zwp_fn, core_but_timer, rb_is_empty.
+  destruct ((s_remote_win_len s =? 0) && negb (rb_len (s_tx_buffer s) =? 0)
+            && (timer_is_idle (s_timer s) || (al >? 0))); sproj;
+  match goal with |- context [if ?b && ?c then _ else _] => destruct (b && c) end; sproj;
+  try destruct (negb (s_remote_last_seq s =? s_local_seq_no s)); cbn [fst]; sproj;
+  conj_split; reflexivity.
+Qed.
+
+(* the timer arithmetic at the heart of the invariant: whatever the timer was after the
+   acknowledgement bookkeeping, after the two timer phases it is armed, or nothing is in flight and
+   no octets wait behind a closed window *)
+Lemma K_after_timer_phases : forall t5 now ka rto al aall una nxt w len,
+  0 <= len ->
+  timer_is_close t5 = false ->
+  (timer_armed t5 = true \/ nxt = una) ->
+  (aall = true -> nxt = una) ->
+  let t6 := timers_fn t5 now ka rto al aall in
+  let t7 := zwp_fn t6 now ka rto al w len (negb (nxt =? una)) in
+  timer_is_close t7 = false /\
+  (timer_armed t7 = true \/ (nxt = una /\ (0 < len -> w <> 0))).
+Proof.
+  intros t5 now ka rto al aall una nxt w len Hlen Hc HA HB t6 t7.
+  unfold t7, t6, zwp_fn, timers_fn.
+  destruct (Z.eqb_spec nxt una) as [Hfl|Hfl]; cbn [negb];
+  destruct (Z.eqb_spec w 0) as [Hw|Hw]; destruct (Z.eqb_spec len 0) as [Hl|Hl];
+  destruct (al >? 0); destruct aall;
+  destruct t5 as [k|e| |e d|e]; cbn in *; try discriminate;
+    try (destruct HA as [HA|HA]; [discriminate HA | contradiction]);
+    try (exfalso; apply Hfl; apply HB; reflexivity);
+    (split; [reflexivity|]); auto; right; (split; [assumption|]); intros; lia.
+Qed.
+
+(* ---------- payload phase: receive side only ---------- *)
+Lemma payload_core : forall cx s ip r payload off s8 reply tg,
+  tcp_process_payload cx s ip r payload off = Ok (s8, reply, tg) -> core_eq s s8.
+Proof.
+  intros cx s ip r payload off s8 reply tg H. unfold tcp_process_payload in H.
+  destruct (l_len payload =? 0); [inversion H; subst; apply core_eq_refl|].
+  destruct (asm_atrf _ _ _ _) as (asm', res).
+  destruct res as [contig|]; [|inversion H; subst; apply core_eq_refl].
+  destruct (rb_write_unallocated _ _ _) as (rx, lw).
+  destruct (negb (lw =? l_len payload)); [discriminate|].
+  obind_inv H.
+  set (q := upd_rx_buffer (upd_assembler s asm') a) in *.
+  assert (Cq : core_eq s q) by (unfold q; core_triv). clearbody q.
+  match type of H with (let '(_, _) := ?m in _) = _ =>
+    assert (Cm : core_eq q (fst m)); [|destruct m as (q1, t1)] end.
+  { destruct (s_ack_delay q); [|apply core_eq_refl].
+    destruct (tcp_ack_to_transmit q); [|apply core_eq_refl].
+    destruct (s_ack_delay_timer q); try apply core_eq_refl; cbn [fst]; try core_triv.
+    destruct (tcp_immediate_ack_to_transmit q); cbn [fst]; [core_triv | apply core_eq_refl]. }
+  cbn [fst] in Cm.
+  destruct (negb (asm_is_empty (s_assembler q1)) || negb (asm_is_empty (s_assembler s))).
+  - pose proof (ack_reply_core cx q1 ip r) as Ca. destruct (tcp_ack_reply cx q1 ip r) as (q2, p).
+    inversion H; subst s8. cbn [fst] in Ca.
+    eapply core_eq_trans; [exact Cq|]. eapply core_eq_trans; [exact Cm | exact Ca].
+  - inversion H; subst s8. eapply core_eq_trans; [exact Cq | exact Cm].
+Qed.
